@@ -101,6 +101,7 @@ func verifMapOrder(on bool, fns ...string) {}
 func verifOverride(fn string, repl interface{}) {
 	panic("verifOverride has no native counterpart: replay through the public API")
 }
+func verifIsNative() bool { return true }
 func verifAnd(a, b bool) bool             { return a && b }
 func verifOr(a, b bool) bool              { return a || b }
 func verifImplies(a, b bool) bool         { return !a || b }
